@@ -118,16 +118,24 @@ CHECKS['C10'] = dict(
     design='4/C10')
 
 CHECKS['C02'] = dict(
-    text='Dataflow form of the property proved in Coq (state_complete / state_only_what_is_needed): for every control statement and '
-         'every simple name bound in its bodies, live-out implies carried and among the declared outputs, live-in implies carried, '
-         'declared nonlocal/global implies carried, and nothing else is carried -- over selection formulas translated from '
-         'control_flow.py on every run. Tied by calling the real _get_block_vars on random liveness sets against the model. The '
-         'semantic form (a tracing backend computes what the original computes) is validated, not proved: a tracing-style '
-         'if/while/for backend is injected into the real pipeline and compared with the original on pure generated programs. '
-         'Liveness soundness itself is C07; composite names are validated only.',
-    note=NOTE_BASE + 'The tracing protocol is the documented one as implemented by the harness backend; programs are side-effect '
-         'free and definitely assigned.',
-    technique='Coq proof over generated selection formulas + direct correspondence with _get_block_vars + tracing-backend differential oracle',
+    text='Both forms of the property are proved in Coq. Dataflow form (state_complete / state_only_what_is_needed): for every control '
+         'statement and every simple name bound in its bodies, live-out implies carried and among the declared outputs, live-in implies '
+         'carried, declared nonlocal/global implies carried, and nothing else is carried -- over selection formulas translated from '
+         'control_flow.py on every run. Semantic form (tracing_if_sound / tracing_while_sound / tracing_for_sound / '
+         'tracing_harness_loops_sound): an executable model of the tracing protocol (both branches run, the second after set_state of '
+         'the entry values, first nouts entries of the chosen branch kept; carried state re-injected before every iteration into a store '
+         'whose other variables hold arbitrary tracing garbage on assigned names) agrees with the original statement on every variable '
+         'live after it, for arbitrary bodies (functions on stores), values, iteration counts (divergence matched by divergence), with '
+         'the state tuple and nouts being those of the generated formulas; the remaining hypotheses are the semantic contents of C08 '
+         '(bodies write only their modified set) and C07 (liveness: live-out values depend only on live-in values; loop header kills '
+         'nothing). Tied by calling the real _get_block_vars on random liveness sets against the model, and by running the protocol '
+         'model against the injected backend on concrete stores. End to end the semantic form is additionally validated: the '
+         'tracing-style if/while/for backend is injected into the real pipeline and compared with the original on pure generated '
+         'programs. Partial: composite names and exceptions inside bodies are validated only.',
+    note=NOTE_BASE + 'The tracing protocol is the documented one as implemented by the harness backend (tied to its Coq model on every '
+         'run); programs are side-effect free and definitely assigned.',
+    technique='Coq proof (simulation invariant over an executable protocol model) over generated selection formulas + direct '
+              'correspondence with _get_block_vars and with the injected backend + tracing-backend differential oracle',
     design='4/C02')
 CHECKS['C12'] = dict(
     text='Kernel-checked theorems over a model of _stack_trace_inside_mapped_code, the metadata daisy chain across any depth of '
